@@ -10,9 +10,10 @@ _SCHED_RULE = (
 
 _RVS = {
     "real": ["thejoker python modules (staged from /repo working tree)", "CJokerHelper compiled kernel", "twobody C", "h5py", "PyTables", "astropy", "numpy Generator/PCG64/SeedSequence", "dill", "pymc/pytensor priors", "schwimmbad.SerialPool (observed)"],
-    "simulated": ["processing pool scheduling + transport (SimPool stands in for schwimmbad.MultiPool)", "worker processes (in-process, data-isolated by reduce/dill copies)"],
+    "simulated": ["processing pool scheduling + transport (SimPool stands in for schwimmbad.MultiPool)", "worker processes: in-process and data-isolated by reduce/dill copies on the shared/reduce/dill transports; REAL worker processes (fresh interpreters, stepped one chunk at a time, so the interleaving stays the simulator's decision) on the 'proc' transport (1-3% of map calls; pool stat proc_chunks counts them; not used by C03/C13)"],
     "none": ["clock/timers: the package has none"],
 }
+_RVS_DEFAULT = _RVS
 _RVS_STUB = dict(_RVS, stubbed_in_a_fraction_of_runs=["kernel OUTPUT of designated library rows overridden to -inf (sim/llproxy.py) in ~15% of runs, counted by the probe runs_with_neg_inf_profile_stub; everything else in those runs is the real kernel"])
 
 META = {
@@ -120,3 +121,6 @@ META = {
         "assumptions": ["start_idx>0 reached only by direct calls"],
     },
 }
+
+for _k, _v in META.items():
+    _v.setdefault("real_vs_stub", _RVS_DEFAULT)
